@@ -306,7 +306,7 @@ def run_monitor(jobs, timeout=1500):
     """jobs: [(stream, {mod: text})] -> [result or None]"""
     # mutants of the samples are checked together with std/ (and tests/StdLib.sam, see monitor_inputs) so that
     # type checking and compilation go beyond "cannot resolve module"
-    inp = '\n'.join(json.dumps({'id': i, 'sources': src, 'with_std': stream in ('mutant', 'multi-module')})
+    inp = '\n'.join(json.dumps({'id': i, 'sources': src, 'with_std': stream in ('mutant', 'multi-module') or stream.startswith('corpus:')})
                     for i, (stream, src) in enumerate(jobs)) + '\n'
     rc, out = vh(['lex-run', 'monitor', str(NCPU)], input=inp, timeout=timeout)
     res = {}
@@ -328,7 +328,6 @@ def classify(stream, v):
     return None
 
 
-ESCAPED_QUOTE = re.compile(r'\\"')
 
 
 def oracle_excluded(src, o):
